@@ -1258,9 +1258,26 @@ impl Server {
         }
         
         // Execute commands
+        let mut db_index = db_index;
         let mut results = Vec::new();
         for cmd_parts in commands_to_execute.iter() {
-            match self.process_command_parts(&cmd_parts, db_index) {
+            let name = match cmd_parts.first() {
+                Some(RespFrame::BulkString(Some(bytes))) => String::from_utf8_lossy(bytes).trim().to_uppercase(),
+                _ => String::new(),
+            };
+            let outcome = match name.as_str() {
+                // SELECT acts on this connection, not on the placeholder id 0 the other queued
+                // commands run with, and the commands after it run in the database it selected
+                "SELECT" => {
+                    let reply = self.process_normal_command(cmd_parts, db_index, conn_id);
+                    if let Some(selected) = self.connections.with_connection(conn_id, |conn| conn.db_index) {
+                        db_index = selected;
+                    }
+                    reply
+                }
+                _ => self.process_command_parts(&cmd_parts, db_index),
+            };
+            match outcome {
                 Ok(response) => results.push(response),
                 Err(e) => {
                     results.push(Self::error_to_reply(&e));
